@@ -15,6 +15,9 @@
 (*           from the guard or from an argument of f (a loop in a loop     *)
 (*           once g is inlined: outer exit after, resp. before, the inner  *)
 (*           loop)                                                         *)
+(*   unit*   three parameters, no value: the function only prints; the     *)
+(*           paths of the rewrite on which no value is expected            *)
+(* (the q-suffixed universes are the quick tier's)                         *)
 (***************************************************************************)
 EXTENDS TailRec, Json, SequencesExt
 
@@ -28,14 +31,13 @@ Plus(x, y) == EBin("+", x, y)
 Minus(x, y) == EBin("-", x, y)
 G(x, y) == EBin("g", x, y)
 
-Wide == Universe \in {"wideq", "wide", "widegenq", "widegen"}
-Deep == Universe \in {"deepq", "deep", "deepgenq", "deepgen"}
-Nest == Universe \in {"nestq", "nest", "nestgenq", "nestgen"}
-Small == Universe \in {"wideq", "deepq", "nestq", "widegenq", "deepgenq", "nestgenq"}
-Gen == Universe \in {"widegenq", "widegen", "deepgenq", "deepgen", "nestgenq", "nestgen"}
+Wide == Universe \in {"wideq", "wide"}
+Deep == Universe \in {"deepq", "deep"}
+Nest == Universe \in {"nestq", "nest"}
+Unit == Universe \in {"unitq", "unit"}
+Small == Universe \in {"wideq", "deepq", "nestq", "unitq"}
 
-NP == IF Wide THEN 3 ELSE 2
-N == P(NP)                        \* the parameter that usually counts down
+NP == IF Wide \/ Unit THEN 3 ELSE 2
 
 -----------------------------------------------------------------------------
 (* wide: a b n *)
@@ -54,14 +56,12 @@ WideLeaves ==
   \cup { Bind(as, x) : as \in WideCall, x \in {At(R), Plus(R, K(1))} \cup (IF Small THEN {} ELSE {Plus(R, A2), At(A1)}) }
 
 (* deep: a n *)
-DeepConds ==
-  IF Small THEN { Cond("<=", At(A2), 0), Cond("==", At(A1), 1) }
-  ELSE { Cond("<=", At(A2), 0), Cond("==", At(A1), 1), Cond("!=", At(A2), 1), Cond("<", At(A1), 1) }
+DeepConds == { Cond("<=", At(A2), 0), Cond("==", At(A1), 1) } \cup (IF Small THEN {} ELSE { Cond("!=", At(A2), 1) })
 DeepTail == { <<Plus(A1, K(1)), Minus(A2, K(1))>>, <<At(A2), At(A1)>>, <<At(A2), Minus(A1, K(1))>> }
-            \cup (IF Small THEN {} ELSE { <<At(A1), Minus(A2, K(1))>>, <<Plus(A1, A2), Minus(A2, K(2))>> })
-DeepCall == { <<At(A2), Minus(A1, K(1))>> } \cup (IF Small THEN {} ELSE { <<Plus(A1, K(1)), Minus(A2, K(1))>> })
+            \cup (IF Small THEN {} ELSE { <<Plus(A1, A2), Minus(A2, K(2))>> })
+DeepCall == { <<At(A2), Minus(A1, K(1))>> }
 DeepLeaves ==
-  { Ret(At(A1)), Ret(At(K(0))) } \cup (IF Small THEN {} ELSE { Ret(Plus(A1, A2)) })
+  { Ret(At(A1)), Ret(At(K(0))) }
   \cup { TailCall(as) : as \in DeepTail }
   \cup { Discard(as, x) : as \in DeepCall, x \in {At(K(1))} \cup (IF Small THEN {} ELSE {At(A1)}) }
   \cup { Bind(as, x) : as \in DeepCall, x \in {At(R)} \cup (IF Small THEN {} ELSE {Plus(R, K(1))}) }
@@ -83,27 +83,36 @@ NestG ==
           Fun(2, 1, If(Cond("==", At(A1), 1), TailCall(<<At(A2), At(A1)>>),
                        If(Cond("<=", At(A2), 0), Ret(At(A1)), TailCall(<<Minus(A1, K(1)), Minus(A2, K(1))>>)))) })
 
-Conds  == IF Wide THEN WideConds ELSE IF Deep THEN DeepConds ELSE NestConds
-Leaves == IF Wide THEN WideLeaves ELSE IF Deep THEN DeepLeaves ELSE NestLeaves
+(* unit: a b n, no value: what the function prints is all there is; every self call that ends a
+   branch is a tail call (no collector, nothing expected) *)
+UnitConds == { Cond("<=", At(A3), 0), Cond("==", At(A1), 1) } \cup (IF Small THEN {} ELSE { Cond("!=", At(A3), 1) })
+UnitTail == { <<At(A2), At(A1), Minus(A3, K(1))>>, <<At(A1), At(A3), Minus(A2, K(1))>>, <<Plus(A1, A2), At(A1), Minus(A3, K(1))>>,
+              <<At(A3), Minus(A1, K(1)), At(A2)>> }
+            \cup (IF Small THEN {} ELSE { <<At(A2), At(A3), Minus(A1, K(1))>>, <<At(A3), At(A2), Minus(A1, K(1))>>,
+                                          <<Plus(A1, K(1)), Plus(A1, A2), Minus(A3, K(2))>> })
+UnitLeaves == { Ret(At(K(0))) } \cup { TailCall(as) : as \in UnitTail }
+
+Conds  == IF Wide THEN WideConds ELSE IF Deep THEN DeepConds ELSE IF Nest THEN NestConds ELSE UnitConds
+Leaves == IF Wide THEN WideLeaves ELSE IF Deep THEN DeepLeaves ELSE IF Nest THEN NestLeaves ELSE UnitLeaves
 GFuns  == IF Nest THEN NestG ELSE {NoG}
-Prints == IF Wide THEN {0, 1} ELSE IF Deep THEN {0, 2} ELSE {0, 1}
+Prints == IF Wide THEN {0, 1} ELSE IF Deep THEN (IF Small THEN {0, 2} ELSE {2}) ELSE IF Nest THEN {0, 1} ELSE IF Small THEN {1} ELSE {1, 3}
 Depth1 == Leaves \cup { If(c, t, e) : c \in Conds, t \in Leaves, e \in Leaves }
 IsLeaf(b) == b.kind # "if"
 RECURSIVE HasBase(_)
 HasBase(b) == CASE b.kind = "ret" -> TRUE [] b.kind = "if" -> HasBase(b.t) \/ HasBase(b.e) [] OTHER -> FALSE
 \* the two sides of the root: wide = leaves; deep = depth <= 1 on both sides (small: on one side);
-\* nest = depth <= 1 on one side (small: leaves)
+\* nest, unit = depth <= 1 on one side (nest, small: leaves)
 Flat == Wide \/ (Nest /\ Small)
 SubT == IF Flat THEN Leaves ELSE Depth1
 SubE(t) == IF Flat THEN Leaves ELSE IF Deep /\ ~Small THEN Depth1 ELSE IF IsLeaf(t) THEN Depth1 ELSE Leaves
 
-\* argument tuples: all small ones for model checking, a fixed handful for the replay
+\* argument tuples: all small ones; the replay calls f with a handful of them
 Args ==
-  IF Wide THEN (IF Gen THEN << <<1, 2, 0>>, <<1, 2, 1>>, <<1, 2, 2>>, <<2, 0, 3>>, <<0, 1, 2>> >>
-                ELSE IF Small THEN SetToSeq({ <<xy[1], xy[2], z>> : xy \in {<<1, 2>>, <<2, 1>>, <<0, 1>>, <<2, 2>>}, z \in 0..3 })
-                ELSE SetToSeq({ <<x, y, z>> : x \in 0..2, y \in 0..2, z \in 0..3 }))
-  ELSE (IF Gen THEN << <<1, 0>>, <<1, 1>>, <<0, 2>>, <<2, 3>>, <<3, 2>> >>
-        ELSE SetToSeq({ <<x, y>> : x \in 0..3, y \in 0..3 }))
+  IF NP = 3 THEN (IF Small THEN SetToSeq({ <<xy[1], xy[2], z>> : xy \in {<<1, 2>>, <<2, 1>>, <<0, 1>>, <<2, 2>>}, z \in 0..3 })
+                  ELSE SetToSeq({ <<x, y, z>> : x \in 0..2, y \in 0..2, z \in 0..3 }))
+  ELSE SetToSeq({ <<x, y>> : x \in 0..3, y \in 0..3 })
+ReplayArgs == IF NP = 3 THEN { <<1, 2, 0>>, <<1, 2, 1>>, <<1, 2, 2>>, <<2, 1, 3>>, <<0, 1, 2>> }
+              ELSE { <<1, 0>>, <<1, 1>>, <<0, 2>>, <<2, 3>>, <<3, 2>> }
 
 (* One body per state.  The initial states fix the condition, the printed parameter, g and the first
    branch; the step chooses the second branch and evaluates the three meanings for every argument
@@ -111,20 +120,21 @@ Args ==
 VARIABLES cond, tb, eb, pr, gf, phase, res
 vars == <<cond, tb, eb, pr, gf, phase, res>>
 Body == If(cond, tb, eb)
-Program == [f |-> Fun(NP, pr, Body), g |-> gf]
+MkF(b) == IF Unit THEN UnitFun(NP, pr, b) ELSE Fun(NP, pr, b)
+Program == [f |-> MkF(Body), g |-> gf]
 Results(p) ==
   LET pl == Lowered(p)
       pm == Rewritten(p)
   IN [i \in 1..Len(Args) |-> [ref |-> Ref(p, Args[i]), low |-> RunIR(pl, Args[i]), rw |-> RunIR(pm, Args[i])]]
-\* a body without a Ret leaf never returns, one without a self call is not the rewrite's business
-Interesting(b) == HasBase(b) /\ (Nest => CallsG(b)) /\ (Gen => HasSelfCall(b))
+\* a body without a Ret leaf never returns
+Interesting(b) == HasBase(b) /\ (Nest => CallsG(b))
 
 Init == /\ cond \in Conds /\ tb \in SubT /\ pr \in Prints /\ gf \in GFuns
         /\ eb = Ret(At(K(0))) /\ phase = 1 /\ res = <<>>
 Next == /\ phase = 1 /\ phase' = 2
         /\ eb' \in SubE(tb)
         /\ Interesting(If(cond, tb, eb')) = TRUE     \* (as a value: a disjunction in an action would branch)
-        /\ res' = Results([f |-> Fun(NP, pr, If(cond, tb, eb')), g |-> gf])
+        /\ res' = Results([f |-> MkF(If(cond, tb, eb')), g |-> gf])
         /\ UNCHANGED <<cond, tb, pr, gf>>
 Spec == Init /\ [][Next]_vars
 
@@ -145,10 +155,13 @@ LoweringFaithful == phase = 2 => \A i \in 1..Len(Args) : res[i].low = res[i].ref
 FuelExact == phase = 2 => \A i \in 1..Len(Args) : res[i].rw.ok = res[i].ref.ok
 
 -----------------------------------------------------------------------------
-(* Cases for the conformance replay *)
+(* Cases for the conformance replay: the body and what the specification says f prints and returns *)
 Case ==
   [np |-> NP, f |-> Program.f, g |-> Program.g, usesg |-> CallsG(Body), rec |-> Recognised("f", Program.f),
-   calls |-> [i \in 1..Len(Args) |->
-                [args |-> Args[i], ok |-> res[i].ref.ok, lines |-> IF res[i].ref.ok THEN Lines(res[i].ref) ELSE <<>>]]]
+   selfcall |-> HasSelfCall(Body),
+   calls |-> SelectSeq([i \in 1..Len(Args) |->
+                          [args |-> Args[i], ok |-> res[i].ref.ok,
+                           lines |-> IF res[i].ref.ok THEN Lines(res[i].ref, Unit) ELSE <<>>]],
+                       LAMBDA c : c.args \in ReplayArgs)]
 Emit == phase = 2 => PrintT(<<"BEHAVIOUR", ToJson(Case)>>)
 =============================================================================
